@@ -1,8 +1,8 @@
 """C14 (function level) - the retry arithmetic and its queue round trip (S2 over SymDB).
 
 The real ``handle_exception`` -> ``TransactionHelper.execute_atomic`` -> ``AtomicTransaction.push_message``
--> ``SqliteQueue.poll_one`` -> ``deserialize_message`` chain runs under CrossHair with the message's
-attempt counter and its limit symbolic.
+-> ``SqliteQueue.poll_one`` -> ``deserialize_message`` chain runs under CrossHair for a symbolic number of
+consecutive failures; the oracle does not say which field carries the budget.
 """
 from __future__ import annotations
 
@@ -33,55 +33,79 @@ class _H(StabilizeHandler):
         pass
 
 
-def retry_budget(a: int, m: int, with_ctx: bool, transient: bool) -> bool:
+LIMIT = 10  # Message.max_attempts default: the documented maximum number of attempts
+
+
+def retry_budget(n: int, with_ctx: bool, last_permanent: bool) -> bool:
     """
-    pre: 0 <= a <= 40 and 1 <= m <= 40
+    pre: 1 <= n <= 13
     post: _
     """
+    # A task's RunTask message as StartTask creates it; the task fails n times in a row with a
+    # transient error (n symbolic).  After every failure the real error path runs and the retry
+    # message is taken back out of the real queue (so whatever carries the budget has to survive
+    # push_message -> row -> poll_one -> deserialize_message).  Representation-agnostic oracle:
+    # failure i < LIMIT is retried exactly once, failure LIMIT ends the task TERMINAL, and no
+    # retry is ever granted beyond it.
     with hx.Path("retry_budget") as P:
-        wc, tr = hx.decide(with_ctx), hx.decide(transient)
+        wc, perm = hx.decide(with_ctx), hx.decide(last_permanent)
         w = world2.SWorld(name="retry")
         try:
             wf, st = seed_stage(w, ntasks=1, status=WorkflowStatus.RUNNING)
             t = st.tasks[0]
             set_cells(w, "task_executions", t.id, status="RUNNING")
             t.status = WorkflowStatus.RUNNING
-            msg = RunTask(execution_id=wf.id, stage_id=st.id, task_id=t.id, task_type="x", created_at=_CREATED)
-            msg.message_id = "77"
-            msg.attempts = a
-            msg.max_attempts = m
-            exc = TransientError("boom", context_update={"progress": 5} if wc else None) if tr else ValueError("permanent")
+            w.queue.push(RunTask(execution_id=wf.id, stage_id=st.id, task_id=t.id, task_type="x", created_at=_CREATED))
             h = _H(w.queue, w.store, handler_config=HandlerConfig(concurrency_max_retries=0))
-            handle_exception(st, t, None, msg, exc, w.store, TransactionHelper(w.store, w.queue),
-                             lambda *args: timedelta(seconds=2), h.retry_on_concurrency_error)  # type: ignore[arg-type]
-            rows = w.table("queue_messages")
-            kinds = [r["message_type"] for r in rows]
-            srow = row_of(w, "stage_executions", st.id)
-            ctx = srow["context"]
-            ctx = ctx.obj if isinstance(ctx, symdb.JText) else json.loads(ctx)
-            should_retry = tr and bool(a + 1 < m)
-            with hx.native():
-                P.reached((wc, tr, should_retry))
-                info = {"transient": tr, "with_context_update": wc, "retry_expected": should_retry, "queued": kinds}
-            if should_retry:
-                if kinds != ["RunTask"]:
-                    return P.fail("C14/retry_budget/transient_error_below_limit_not_retried", info)
-                if wc and ctx.get("progress") != 5:
-                    return P.fail("C14/retry_budget/saved_progress_not_stored_with_the_retry", info)
-                # the retry must come back with a larger attempt count, or the budget is never consumed
+            rounds = 0
+            outcome = None
+            for i in range(1, 15):
                 symdb.CLOCK.now = symdb.CLOCK.now + 10_000
-                back = w.queue.poll_one()
-                if back is None:
-                    return P.fail("C14/retry_budget/retry_message_not_deliverable_after_backoff", info)
-                if not (back.attempts > a):
-                    return P.fail("C14/retry_budget/attempt_count_not_carried_through_the_queue", info)
-            else:
-                if kinds != ["CompleteTask"]:
-                    return P.fail("C14/retry_budget/%s" % ("retried_at_or_beyond_limit" if tr else "permanent_error_retried"), info)
-                p = rows[0]["payload"]
-                d = p.obj if isinstance(p, symdb.JText) else json.loads(p)
+                msg = w.queue.poll_one()
+                if msg is None:
+                    outcome = "retry_message_not_deliverable_after_backoff"
+                    break
+                last = hx.decide_eq(n, i)
+                stage = w.store.retrieve_stage(st.id)
+                task = stage.tasks[0]
+                if wc and i > 1 and stage.context.get("progress") != i - 1:
+                    return P.fail("C14/retry_budget/saved_progress_not_seen_by_next_attempt", {"attempt": i, "progress": stage.context.get("progress")})
+                exc = ValueError("permanent") if (last and perm) else TransientError("boom", context_update={"progress": i} if wc else None)
+                handle_exception(stage, task, None, msg, exc, w.store, TransactionHelper(w.store, w.queue),
+                                 lambda *args: timedelta(seconds=2), h.retry_on_concurrency_error)  # type: ignore[arg-type]
+                w.queue.ack(msg)
+                rounds = i
+                kinds = sorted(r["message_type"] for r in w.table("queue_messages"))
+                if kinds == ["CompleteTask"]:
+                    outcome = "terminal"
+                    break
+                if kinds != ["RunTask"]:
+                    outcome = "queued:" + ",".join(kinds)
+                    break
+                if last:
+                    outcome = "retried"
+                    break
+            with hx.native():
+                P.reached((wc, perm, rounds, outcome))
+                info = {"failures": rounds, "with_context_update": wc, "last_error_permanent": perm, "outcome": outcome, "limit": LIMIT}
+            if outcome not in ("terminal", "retried"):
+                return P.fail("C14/retry_budget/%s" % outcome, info)
+            if outcome == "retried" and rounds >= LIMIT:
+                return P.fail("C14/retry_budget/retried_at_or_beyond_limit", info)
+            if outcome == "retried" and perm:
+                return P.fail("C14/retry_budget/permanent_error_retried", info)
+            if outcome == "terminal":
+                if not perm and rounds < LIMIT:
+                    return P.fail("C14/retry_budget/transient_error_below_limit_not_retried", info)
+                if not perm and rounds > LIMIT:
+                    return P.fail("C14/retry_budget/retried_at_or_beyond_limit", info)
+                row = w.table("queue_messages")[0]["payload"]
+                d = row.obj if isinstance(row, symdb.JText) else json.loads(row)
                 if d.get("status") != "TERMINAL":
                     return P.fail("C14/retry_budget/exhausted_task_not_marked_terminal", {**info, "status": d.get("status")})
+                srow = row_of(w, "stage_executions", st.id)
+                ctx = srow["context"]
+                ctx = ctx.obj if isinstance(ctx, symdb.JText) else json.loads(ctx)
                 if "exception" not in ctx:
                     return P.fail("C14/retry_budget/error_not_recorded_on_stage", info)
             return True
@@ -93,7 +117,7 @@ PLAN = [("retry_budget", "quick", 280)]
 META = {
     "functions": ["src/stabilize/handlers/run_task/error.py:handle_exception/_handle_transient_retry/_mark_terminal", "src/stabilize/persistence/transaction.py:TransactionHelper.execute_atomic(_critical)",
                   "src/stabilize/persistence/sqlite/transaction.py:AtomicTransaction.push_message", "src/stabilize/queue/sqlite/queue.py:poll_one", "src/stabilize/queue/sqlite/serialization.py:deserialize_message"],
-    "bounds": ["message.attempts in [0,40], max_attempts in [1,40] (symbolic), transient / permanent error, with / without context_update"],
+    "bounds": ["1..13 consecutive failures (symbolic), the last one transient or permanent, with / without context_update; every retry message goes through the real push / poll_one / deserialize round trip"],
     "stubs": ["SymDB instead of SQLite (validated differentially on every run)", "backoff function replaced by a constant", "ids/clock stubs"],
     "assumptions": [],
 }
